@@ -13,7 +13,7 @@ NATIVE = os.environ.get("VERIF_NATIVE") == "1"
 
 if NATIVE:
 
-    class IgnoreAttempt(Exception):
+    class IgnoreAttempt(BaseException):  # like CrossHair's: must not be swallowed by `except Exception` in the code under test
         """precondition-like assumption violated (native replay: 'input outside the claim')"""
 
 else:
